@@ -269,7 +269,7 @@ def make_jobs(case, cx, syms_by_path, tier, findings, rec):
             metas = []
             for i, (name, ob, g) in enumerate(chunk):
                 s.add(z3.Implies(z3.Bool(f"goal!marker!{i}"), z3.Not(g)))
-                metas.append({"name": name, "kind": ob.kind, "path": ob.path, "info": ob.info, "goal": g.sexpr()[:400]})
+                metas.append({"name": name, "kind": ob.kind, "path": ob.path, "info": ob.info, "goal": None})
             jobs.append({"case": case.name, "batch": True, "expect": "unsat", "timeout": timeout,
                          "full": s.to_smt2(), "items": metas, "path": path})
     return jobs
@@ -348,25 +348,31 @@ def solve_batch(job):
     except Exception as e:
         return [{"case": job["case"], **m, "verdict": "crash", "backend": None, "time": 0.0,
                  "reason": f"{type(e).__name__}: {e}"} for m in job["items"]]
+    hyps = [x for x in a if not (z3.is_implies(x) and str(x.arg(0)).startswith("goal!marker"))]
+    negs = {str(x.arg(0)): x.arg(1) for x in a if z3.is_implies(x) and str(x.arg(0)).startswith("goal!marker")}
     for i, m in enumerate(job["items"]):
         t0 = time.time()
         o = {"case": job["case"], **m}
-        marker = z3.Bool(f"goal!marker!{i}")
-        r = s.check(marker)
+        neg = negs.get(f"goal!marker!{i}")
+        # one parse for the whole batch, but a fresh solver per goal (the
+        # incremental mode is much slower on div/mod-heavy arithmetic)
+        s = z3.Solver()
+        s.set("timeout", int(T * 1000))
+        s.add(hyps)
+        s.add(neg)
+        r = s.check()
         o["backend"] = "z3-%s(api)" % z3.get_version_string()
         o["reason"] = None
         if r == z3.unsat:
             o["verdict"] = "proved"
         elif r == z3.sat:
             o["verdict"] = "refuted"
+            o["goal"] = "not " + neg.sexpr()[:400]
             o["model"] = {k: v for k, v in _model_dict(s.model(), consts).items() if not k.startswith("goal!marker")}
         else:
-            # retry alone (fresh solver, cvc5 fallback) through the single-goal path
-            neg = [x for x in a if z3.is_implies(x) and x.arg(0).get_id() == marker.get_id()]
-            hyps = [x for x in a if not (z3.is_implies(x) and str(x.arg(0)).startswith("goal!marker"))]
             single = {"case": job["case"], "name": m["name"], "kind": m["kind"], "path": m["path"], "info": m["info"],
                       "expect": "unsat", "timeout": T, "ground": None, "goal": m["goal"], "kf": [],
-                      "full": vc.to_smt2(hyps, neg[0].arg(1)) if neg else job["full"]}
+                      "full": vc.to_smt2(hyps, neg)}
             o = solve_job(single)
         o["time"] = round(time.time() - t0, 4)
         outs.append(o)
